@@ -752,6 +752,37 @@ func (g *cgen) jsonText(depth int) string {
 	return b.String()
 }
 
+// floatLit: a decimal literal with 15..19 significant digits, the point anywhere (also 0.ddd and 0.00ddd), optional
+// sign and optional exponent.
+func (g *cgen) floatLit() string {
+	n := 15 + g.r.Intn(5)
+	d := make([]byte, n)
+	for i := range d {
+		d[i] = byte('0' + g.r.Intn(10))
+	}
+	d[0] = byte('1' + g.r.Intn(9))
+	if d[n-1] == '0' {
+		d[n-1] = byte('1' + g.r.Intn(9))
+	}
+	var lit string
+	switch g.r.Intn(4) {
+	case 0:
+		lit = "0." + string(d)
+	case 1:
+		lit = "0." + strings.Repeat("0", 1+g.r.Intn(3)) + string(d)
+	default:
+		p := 1 + g.r.Intn(n-1)
+		lit = string(d[:p]) + "." + string(d[p:])
+	}
+	if g.r.Intn(3) == 0 {
+		lit += []string{"e", "E", "e+", "e-"}[g.r.Intn(4)] + strconv.Itoa(g.r.Intn(31))
+	}
+	if g.r.Intn(5) == 0 {
+		lit = "-" + lit
+	}
+	return lit
+}
+
 // stringText: containers of strings where escaped strings (which go through the parsers' scratch buffers) are
 // followed by plain ones, as values and as keys.
 func (g *cgen) stringText() string {
@@ -828,7 +859,20 @@ func convRand(args []string) {
 		enc.Encode(abs{"ev": "conv", "op": op, "tree": tr, "muts": muts})
 		enc.Encode(abs{"ev": "write", "tree": g.tree(1 + g.r.Intn(3))})
 		txt := g.jsonText(1 + g.r.Intn(3))
-		switch g.r.Intn(4) {
+		switch g.r.Intn(5) {
+		case 4:
+			// float literals with 15..19 significant digits, with and without exponent: the two parsers must
+			// return the same float64 (a one-ulp disagreement shows in the exact projection)
+			var b bytes.Buffer
+			b.WriteString("[")
+			for k, m := 0, 3+g.r.Intn(5); k < m; k++ {
+				if k > 0 {
+					b.WriteString(",")
+				}
+				b.WriteString(g.floatLit())
+			}
+			b.WriteString("]")
+			txt = b.String()
 		case 0:
 			txt = g.stringText()
 		case 1:
